@@ -16,8 +16,12 @@ Positions == {"ret", "or", "step", "bound", "start", "whilecond", "ifcond", "eli
 (* second family: `modify` of a captured variable whose declared type is wider than the type of the value stored *)
 ModKinds == {"mod_int", "mod_opt_set", "mod_opt_clear", "mod_opt_swap", "mod_str_longer", "mod_str_shorter", "mod_str_empty", "mod_bool"}
 
+(* third family: an escaped closure driven by a built-in that calls it once per element (map / filter): every call, *)
+(* not only the first, must see the captured variables                                                             *)
+DrvKinds == {"drv_map", "drv_filter", "drv_map_count", "drv_filter_count", "drv_map_nested"}
+
 VARIABLES pos, modx
-Init == pos \in Positions \cup ModKinds /\ modx \in BOOLEAN
+Init == pos \in Positions \cup ModKinds \cup DrvKinds /\ modx \in BOOLEAN
 Next == UNCHANGED <<pos, modx>>
 
 FT == "fn() -> int"
@@ -77,7 +81,28 @@ ModProg ==
       Print(Call(V("f"), <<>>)), Print(Call(V("use2"), <<V("f")>>))>>
     \o (IF modx THEN <<Print(X)>> ELSE <<>>) \o <<Print(S("end"))>>
 
+FI == "fn(int) -> int"
+FB == "fn(int) -> bool"
+DrvProg ==
+    (IF modx THEN <<Let("x", I(100)), Let("calls", I(1000))>> ELSE <<>>) \o
+    <<LetT("src", "[int...]", List(<<I(1), I(2), I(3), I(4)>>)),
+      Let("mks", Fn("mks", <<P("x", "int")>>, FI, <<Ret(Fn("sc", <<P("q", "int")>>, "int", <<Ret(Bin("*", V("q"), X))>>))>>)),
+      Let("mkb", Fn("mkb", <<P("x", "int")>>, FB, <<Ret(Fn("bg", <<P("q", "int")>>, "bool", <<Ret(Bin(">", V("q"), X))>>))>>)),
+      Let("mkc", Fn("mkc", <<>>, FI, <<Let("calls", I(0)),
+                                       Ret(Fn("cn", <<P("q", "int")>>, "int", <<Modify("calls", Bin("+", V("calls"), I(1))), Ret(Bin("+", Bin("*", V("q"), I(10)), V("calls")))>>))>>)),
+      Let("mkd", Fn("mkd", <<>>, FB, <<Let("calls", I(0)),
+                                       Ret(Fn("cd", <<P("q", "int")>>, "bool", <<Modify("calls", Bin("+", V("calls"), I(1))), Ret(Bin("<", V("calls"), I(3)))>>))>>))>>
+    \o (CASE pos = "drv_map" -> <<Let("sc", Call(V("mks"), <<I(3)>>)), Print(MCall(V("src"), "map", <<V("sc")>>))>>
+           [] pos = "drv_filter" -> <<Let("bg", Call(V("mkb"), <<I(2)>>)), Print(MCall(V("src"), "filter", <<V("bg")>>))>>
+           [] pos = "drv_map_count" -> <<Let("cn", Call(V("mkc"), <<>>)), Print(MCall(V("src"), "map", <<V("cn")>>)), Print(Call(V("cn"), <<I(0)>>))>>
+           [] pos = "drv_filter_count" -> <<Let("cd", Call(V("mkd"), <<>>)), Print(MCall(V("src"), "filter", <<V("cd")>>)), Print(Call(V("cd"), <<I(0)>>))>>
+           [] pos = "drv_map_nested" -> <<Let("sc", Call(V("mks"), <<I(3)>>)),
+                                          Let("outer", Fn("outer", <<P("q", "int")>>, "int", <<Ret(Bin("+", Call(V("sc"), <<V("q")>>), I(1)))>>)),
+                                          Print(MCall(V("src"), "map", <<V("outer")>>))>>)
+    \o (IF modx THEN <<Print(X), Print(V("calls"))>> ELSE <<>>) \o <<Print(S("end"))>>
+
 Prog ==
+    IF pos \in DrvKinds THEN DrvProg ELSE
     IF pos \in ModKinds THEN ModProg ELSE
     (IF modx THEN <<Let("x", I(50))>> ELSE <<>>) \o
     (IF pos = "fieldarg" THEN <<BxClass>> ELSE <<>>) \o
